@@ -1182,6 +1182,10 @@ class Evaluator(Run):
                 return
             if base.t.kind != "obj":
                 raise Unsupported("attribute assignment on %s" % base.t)
+            ps = self.ctx.property_def(base.t.cls, target.attr, "setter")
+            if ps is not None:
+                self.inline_call(Closure(ps, Frame({}, None)), [base, val], {}, target)  # the class's real property setter
+                return
             self.set_field(base, target.attr, val)
             return
         if isinstance(target, ast.Subscript):
